@@ -79,6 +79,7 @@ def run_all(ctx, tier):
     import tempfile
     tails = ['hello ', 'Name:   ', 'tab\t'.replace('\\t', '\t'), 'x \t ', 'grüße ', '日本語  ', 'a b  c ', 'ends with escape\\n ', 'q\t\t']
     tails = [t.replace('\\t', '\t') for t in tails]
+    tails += ['C:\\\\temp\\\\', 'ends in an escaped backslash\\\\', '日本\\\\', 'x\\\\']      # text ends in \\ (one backslash); more lines follow
     src = ''.join('string %s\n' % t for t in tails)
     d = tempfile.mkdtemp(prefix='bbstr_')
     try:
